@@ -146,6 +146,11 @@ struct Case {
     /// input outside the specifications, on which the property is silent: only implementation vs model is compared.
     /// 1 = xls DATEMODE record with the value 2; 2 = ods table style name defined twice (hidden first, visible last)
     quirk: u8,
+    /// xlsx: an `<extLst>` as last child of `<workbook>` holding foreign-namespace elements whose local names collide
+    /// with elements the reader interprets (legal, inert content). Bits: 1 = `x15:workbookPr chartTrackingRefBase="1"`
+    /// (what Excel 2013+ writes), 2 = `x14:definedNames/x14:definedName name=…` with argument descriptions (Excel 2010+),
+    /// 4 = a future-extension `x15:sheets/x15:sheet` list
+    ext: u8,
     sheets: Vec<LSheet>,
     names: Vec<LName>,
 }
@@ -179,7 +184,7 @@ impl Case {
             .collect();
         let pre: Vec<String> = self.pre.iter().map(|(i, p)| format!("{}:{}", i, hex(p))).collect();
         format!(
-            "{};{};{};{};{};P={};S={};N={};Q={}",
+            "{};{};{};{};{};P={};S={};N={};Q={};X={}",
             self.fmt.tag(),
             self.seed,
             self.date1904 as u8,
@@ -188,12 +193,13 @@ impl Case {
             pre.join(","),
             sh.join(","),
             nm.join(","),
-            self.quirk
+            self.quirk,
+            self.ext
         )
     }
     fn parse(s: &str) -> Case {
         let p: Vec<&str> = s.split(';').collect();
-        assert!(p.len() == 8 || p.len() == 9, "bad case {s}");
+        assert!((8..=10).contains(&p.len()), "bad case {s}");
         let utf = |h: &str| String::from_utf8(unhex(h)).expect("utf8");
         let list = |x: &str, pre: &str| -> Vec<String> {
             let b = x.strip_prefix(pre).expect("prefix");
@@ -239,7 +245,8 @@ impl Case {
             prefix: if p[3] == "-" { String::new() } else { p[3].to_string() },
             plain: p[4] == "1",
             pre,
-            quirk: if p.len() == 9 { p[8].strip_prefix("Q=").expect("Q=").parse().unwrap() } else { 0 },
+            quirk: if p.len() >= 9 { p[8].strip_prefix("Q=").expect("Q=").parse().unwrap() } else { 0 },
+            ext: if p.len() >= 10 { p[9].strip_prefix("X=").expect("X=").parse().unwrap() } else { 0 },
             sheets,
             names,
         }
@@ -474,6 +481,7 @@ fn gen_case(fmt: Fmt, rng: &mut Rng) -> Case {
             Fmt::Ods if rng.chance(1, 25) => 2,
             _ => 0,
         },
+        ext: if fmt == Fmt::Xlsx && rng.chance(1, 2) { *rng.pick(&[1u8, 1, 1, 2, 3, 4, 5, 7]) } else { 0 },
         sheets,
         names,
     }
@@ -734,6 +742,42 @@ fn build_xlsx(c: &Case) -> Built {
         }
     }
     book.split_defined_names = !c.plain && rng.chance(1, 3);
+    if c.ext != 0 {
+        let kv = |k: &str, v: &str| (k.to_string(), v.to_string());
+        let q = |n: &str| if c.prefix.is_empty() { n.to_string() } else { format!("{}:{}", c.prefix, n) };
+        let x15 = "http://schemas.microsoft.com/office/spreadsheetml/2010/11/main";
+        let x14 = "http://schemas.microsoft.com/office/spreadsheetml/2009/9/main";
+        let mut t = vec![Ev::Start(q("extLst"), vec![])];
+        if c.ext & 2 != 0 {
+            t.push(Ev::Start(q("ext"), vec![kv("uri", "{46BE6895-7355-4a93-B00E-2C351335B9C9}"), kv("xmlns:x14", x14)]));
+            t.push(Ev::Start("x14:definedNames".into(), vec![]));
+            t.push(Ev::Start("x14:definedName".into(), vec![kv("name", "ExtFn")]));
+            t.push(Ev::Start("x14:argumentDescriptions".into(), vec![kv("count", "1")]));
+            t.push(Ev::Start("x14:argumentDescription".into(), vec![kv("index", "0")]));
+            t.push(Ev::Text("first argument".into()));
+            t.push(Ev::End("x14:argumentDescription".into()));
+            t.push(Ev::End("x14:argumentDescriptions".into()));
+            t.push(Ev::End("x14:definedName".into()));
+            t.push(Ev::End("x14:definedNames".into()));
+            t.push(Ev::End(q("ext")));
+        }
+        if c.ext & 1 != 0 {
+            t.push(Ev::Start(q("ext"), vec![kv("uri", "{140A7094-0E35-4892-8432-C4D2E57EDEB5}"), kv("xmlns:x15", x15)]));
+            t.push(Ev::Start("x15:workbookPr".into(), vec![kv("chartTrackingRefBase", "1")]));
+            t.push(Ev::End("x15:workbookPr".into()));
+            t.push(Ev::End(q("ext")));
+        }
+        if c.ext & 4 != 0 {
+            t.push(Ev::Start(q("ext"), vec![kv("uri", "{C16C16C1-0000-4000-8000-000000000016}"), kv("xmlns:x15", x15)]));
+            t.push(Ev::Start("x15:sheets".into(), vec![]));
+            t.push(Ev::Start("x15:sheet".into(), vec![kv("name", "shadow"), kv("id", "1")]));
+            t.push(Ev::End("x15:sheet".into()));
+            t.push(Ev::End("x15:sheets".into()));
+            t.push(Ev::End(q("ext")));
+        }
+        t.push(Ev::End(q("extLst")));
+        book.workbook_tail_events = t;
+    }
     let mut l = if c.plain { xlsxw::Layout::plain() } else { xlsxw::Layout::random(&mut rng) };
     l.seed = rng.next();
     l.prefix = c.prefix.clone();
@@ -1067,6 +1111,9 @@ fn features(c: &Case, part: &str) -> String {
     if !c.pre.is_empty() {
         f.push("pre-records".to_string());
     }
+    if c.ext != 0 {
+        f.push(format!("extLst={}", c.ext));
+    }
     if f.is_empty() {
         String::new()
     } else {
@@ -1196,6 +1243,13 @@ fn shrink(c: &Case, kind: &str, sig: &str, drv: &mut Driver) -> Case {
             d.pre.remove(i);
             cands.push(d);
         }
+        for bit in [1u8, 2, 4] {
+            if cur.ext & bit != 0 {
+                let mut d = cur.clone();
+                d.ext &= !bit;
+                cands.push(d);
+            }
+        }
         if cur.date1904 {
             let mut d = cur.clone();
             d.date1904 = false;
@@ -1249,6 +1303,9 @@ fn run_case(c: &Case, drv: &mut Driver, rep: &mut Report, from_corpus: bool) {
     }
     if from_corpus {
         rep.count("corpus");
+    }
+    if c.ext != 0 {
+        rep.count(&format!("xlsx:extLst={}", c.ext));
     }
     if c.quirk != 0 {
         rep.count(&format!("{}:out-of-spec-quirk-{} (impl vs model only)", c.fmt.tag(), c.quirk));
@@ -1396,7 +1453,7 @@ fn unit_boundsheet(_drv: &mut Driver, rep: &mut Report, _rng: &mut Rng, _n: u64)
 
 fn corpus() -> Vec<Case> {
     let sh = |n: &str, vis: u8, kind: Kind| LSheet { name: n.to_string(), vis, kind };
-    let base = |fmt: Fmt| Case { fmt, seed: 1, date1904: false, prefix: String::new(), plain: true, pre: vec![], quirk: 0, sheets: vec![sh("S1", 0, Kind::Work)], names: vec![] };
+    let base = |fmt: Fmt| Case { fmt, seed: 1, date1904: false, prefix: String::new(), plain: true, pre: vec![], quirk: 0, ext: 0, sheets: vec![sh("S1", 0, Kind::Work)], names: vec![] };
     let mut v = vec![];
     // D22: <x:workbookPr date1904="1"/> was ignored
     let mut c = base(Fmt::Xlsx);
@@ -1407,6 +1464,16 @@ fn corpus() -> Vec<Case> {
     for fmt in [Fmt::Xlsx, Fmt::Xlsb] {
         let mut c = base(fmt);
         c.sheets = vec![sh("S1", 0, Kind::Macro)];
+        v.push(c);
+    }
+    // C16-b (regression of the D22 fix) and C16-c: foreign-namespace elements inside <extLst> whose local names collide with
+    // elements of the main namespace: `x15:workbookPr chartTrackingRefBase="1"` (written by Excel 2013+) reset the 1904
+    // flag, `x14:definedName` (Excel 2010+ function descriptions) was reported as a defined name, a foreign `sheet`
+    // made the open fail
+    for (ext, d) in [(1u8, true), (2, false), (4, false), (7, true)] {
+        let mut c = base(Fmt::Xlsx);
+        c.ext = ext;
+        c.date1904 = d;
         v.push(c);
     }
     // D35: a 16-bit Lbl name of two characters was read as one
@@ -1458,7 +1525,7 @@ fn main() {
         "C16",
         "one case = one logical workbook (0-12 sheets with unique names of 1-31 UTF-16 units drawn from ASCII, XML specials, Latin-1, BMP and non-BMP characters, \
          excluding the characters Excel forbids in sheet names and NUL, sometimes with a leading U+FEFF; every visibility x kind the format expresses; 0-10 defined names: text for \
-         xlsx/ods, absolute PtgRef3d/PtgArea3d/PtgRefErr3d for xls/xlsb; both date systems, one date-styled cell per sheet) written under a random layout; non-trivial = at \
+         xlsx/ods, absolute PtgRef3d/PtgArea3d/PtgRefErr3d for xls/xlsb; both date systems, one date-styled cell per sheet; xlsx: in half of the cases an extLst with foreign-namespace elements whose local names are workbookPr / definedName / sheet) written under a random layout; non-trivial = at \
          least one sheet and (several sheets, a defined name, or a non-default visibility/kind); \
          about 4% of the xls / ods cases carry an out-of-specification detail (DATEMODE = 2; a style name defined twice) on which only implementation and model are compared; unit cases = BoundSheet8 payloads (all 65536 hsState x dt byte pairs, random and truncated strings)",
     );
